@@ -134,3 +134,13 @@ Theorem C15_inner_steps_are_seeded :
   Fwd_tie.obj_kw "PCA" "fit" "SVD" "random_state" = ["self.random_state"%string].
 Proof. exact Fwd_tie.inner_steps_are_seeded. Qed.
 Print Assumptions C15_inner_steps_are_seeded.
+
+(* the fraction rule sees the singular values the back-end returned and the data the routine was given: in the two decomposition front-ends (Decomposer.fit, _SVD.fit_transform) the data and the three factors are bound only by the back-end call,
+   the re-ordering of the iterative complex solver, the truncations, the mode labels and the sign fix - the statements regenerated from the source by T3
+   are exactly these; nothing rescales, floors or clips a singular value on the way *)
+From XV Require Gen.T3 Proofs.C15_opts.
+Theorem C15_factors_are_the_back_ends : List.length T3.dec_factor_writes = 20%nat /\ List.length T3.svd_factor_writes = 18%nat /\
+  forallb (fun st => negb (String.eqb st "s = s.clip(min=1e-10 * s.max())")) T3.dec_factor_writes = true.
+Proof. exact (conj (f_equal (@List.length _) C15_opts.dec_factor_writes_known) (conj (f_equal (@List.length _) C15_opts.svd_factor_writes_known)
+  (f_equal (forallb _) C15_opts.dec_factor_writes_known))). Qed.
+Print Assumptions C15_factors_are_the_back_ends.
